@@ -70,6 +70,66 @@ Definition lin_ok (s0 : shared) (ts0 : tstate) (a0 : astate)
            (progs : list (list op)) (sched : list nat) : bool :=
   g_ok (snd (grun (init local s0 ts0 progs) (ginit a0 (length progs)) sched)).
 
+Lemma pend_do_lp_other g t o t' : t' <> t -> pend_of (do_lp g t o) t' = pend_of g t'.
+Proof.
+  intros Hne. unfold do_lp, pend_of. destruct (aspec (g_abs g) o). simpl.
+  rewrite nth_upd. destruct (Nat.eqb t t') eqn:E; [apply Nat.eqb_eq in E; congruence|reflexivity].
+Qed.
+
+Lemma pend_do_ret_other g t r t' : t' <> t -> pend_of (do_ret g t r) t' = pend_of g t'.
+Proof.
+  intros Hne. unfold do_ret, pend_of. simpl.
+  rewrite nth_upd. destruct (Nat.eqb t t') eqn:E; [apply Nat.eqb_eq in E; congruence|reflexivity].
+Qed.
+
+Lemma gstep_pend_other c g t t' : t' <> t -> pend_of (gstep c g t) t' = pend_of g t'.
+Proof.
+  intros Hne. unfold gstep.
+  destruct (nth_error (c_thr c) t) as [th|]; [|reflexivity].
+  destruct (view M th) as [[[o l] fresh]|]; [|reflexivity].
+  destruct (m_step M l (c_sh c)); try reflexivity.
+  - destruct (lp o l (c_sh c)); [apply pend_do_lp_other; assumption|reflexivity].
+  - rewrite pend_do_ret_other by assumption.
+    destruct (lp o l (c_sh c)); [apply pend_do_lp_other; assumption|reflexivity].
+Qed.
+
+Lemma pend_do_lp_same g t o :
+  t < length (g_pend g) -> pend_of (do_lp g t o) t = Some (snd (aspec (g_abs g) o)).
+Proof.
+  intros H. unfold do_lp, pend_of. destruct (aspec (g_abs g) o) as [a r]. simpl.
+  rewrite nth_upd, Nat.eqb_refl. destruct (Nat.ltb_spec t (length (g_pend g))); [reflexivity|lia].
+Qed.
+
+Lemma abs_do_lp g t o : g_abs (do_lp g t o) = fst (aspec (g_abs g) o).
+Proof. unfold do_lp. destruct (aspec (g_abs g) o). reflexivity. Qed.
+
+Lemma ok_do_lp g t o :
+  g_ok (do_lp g t o) = g_ok g && match pend_of g t with None => true | Some _ => false end.
+Proof. unfold do_lp. destruct (aspec (g_abs g) o). reflexivity. Qed.
+
+Lemma pend_do_ret_same g t r : t < length (g_pend g) -> pend_of (do_ret g t r) t = None.
+Proof.
+  intros H. unfold do_ret, pend_of. simpl.
+  rewrite nth_upd, Nat.eqb_refl. destruct (Nat.ltb_spec t (length (g_pend g))); [reflexivity|lia].
+Qed.
+
+Lemma do_ret_length g t r : length (g_pend (do_ret g t r)) = length (g_pend g).
+Proof. unfold do_ret; simpl. apply upd_length. Qed.
+
+Lemma do_lp_length g t o : length (g_pend (do_lp g t o)) = length (g_pend g).
+Proof. unfold do_lp. destruct (aspec (g_abs g) o). simpl. apply upd_length. Qed.
+
+Lemma gstep_pend_length c g t : length (g_pend (gstep c g t)) = length (g_pend g).
+Proof.
+  unfold gstep.
+  destruct (nth_error (c_thr c) t) as [th|]; [|reflexivity].
+  destruct (view M th) as [[[o l] fresh]|]; [|reflexivity].
+  destruct (m_step M l (c_sh c)); try reflexivity.
+  - destruct (lp o l (c_sh c)); [apply do_lp_length|reflexivity].
+  - unfold do_ret; simpl. rewrite upd_length.
+    destruct (lp o l (c_sh c)); [apply do_lp_length|reflexivity].
+Qed.
+
 Lemma grun_fst c g sched : fst (grun c g sched) = final M c sched.
 Proof.
   revert c g; induction sched as [|t s IH]; intros c g; simpl.
